@@ -47,6 +47,17 @@ class DataView(DataSet):
                 "underlying DataArray {}".format(self._slices, da.shape)
             )
 
+        if self.valid and any(s.start < 0 or s.stop < s.start for s in slices):
+            # a negative start would be wrapped around by slice.indices below
+            # and silently select other elements; a negative extent would
+            # produce a negative shape
+            self._valid = False
+            self._error_message = (
+                "OutOfBounds error!"
+                "Trying to create DataView with slices {} which have a negative start or "
+                "a negative extent".format(self._slices)
+            )
+
         # Simplify all slices
         if self.valid:
             slices = tuple(slice(*sl.indices(dimlen))
